@@ -68,10 +68,12 @@ Definition apply_unary (us : list nat) (x : D) : D := fold_right (fun k acc => u
 Section WithVars.
 Variable vars : list str.      (* the sorted variable names *)
 Variable vals : list D.        (* their values *)
+(* position of a name in the variable list (every variable of a tree is in the list of the tree) *)
+Definition var_pos (x : str) : nat := match index_of x vars 0 with Some i => i | None => 0 end.
 Definition leaf_val (k : leaf) : D :=
   match k with
   | LNum d => d
-  | LVar x => match index_of x vars 0 with Some i => nth i vals (dflt C) | None => dflt C end
+  | LVar x => nth (var_pos x) vals (dflt C)
   end.
 Fixpoint ref_atom (a : atom) : D :=
   match a with
